@@ -25,6 +25,16 @@ func init() {
 			"controller-runtime's retry/backoff semantics.",
 		Run: runC06,
 		Mutants: []Mutant{
+			{Name: "status-write-failure-swallowed", File: "internal/k8s/k8s.go",
+				Old: "\t_, err := c.client.CoreV1().Services(svc.Namespace).UpdateStatus(context.TODO(), svc, metav1.UpdateOptions{})\n\treturn err",
+				New: "\t_, err := c.client.CoreV1().Services(svc.Namespace).UpdateStatus(context.TODO(), svc, metav1.UpdateOptions{})\n\tif err != nil && len(svc.Status.LoadBalancer.Ingress) == 0 {\n\t\treturn nil\n\t}\n\treturn err", Expect: "WRITE-ERR"},
+			{Name: "full-pass-lists-piecewise", File: "internal/k8s/controllers/service_controller_reload.go",
+				Old: "\tif err := r.List(ctx, &services); err != nil {",
+				New: "\tfor page := 0; page < 1; page++ {\n\t\tif err := r.List(ctx, &services); err != nil {\n\t\t\treturn ctrl.Result{}, err\n\t\t}\n\t}\n\tif err := error(nil); err != nil {", Expect: "lists-every-service"},
+			{Name: "early-validation-before-readoption", File: "controller/service.go",
+				Old: "\tif len(lbIPs) != 0 {\n\t\t// This assign is idempotent if the config is consistent,", New: "\tif len(lbIPs) != 0 {\n\t\tif _, _, err := getDesiredLbIPs(svc); err != nil {\n\t\t\treturn ErrConverge\n\t\t}\n\t\t// This assign is idempotent if the config is consistent,", Expect: "READOPT-EXIT"},
+			{Name: "unchanged-revision-skipped", File: "internal/k8s/controllers/service_controller.go",
+				Old: "\tepSlices := []discovery.EndpointSlice{}\n\tif r.Endpoints {\n\t\tepSlices, err = epSlicesForService(ctx, r, req.NamespacedName)", New: "\tif service != nil && service.ResourceVersion == r.LoadBalancerClass {\n\t\treturn ctrl.Result{}, nil\n\t}\n\tepSlices := []discovery.EndpointSlice{}\n\tif r.Endpoints {\n\t\tepSlices, err = epSlicesForService(ctx, r, req.NamespacedName)", Expect: "EVERY-EVENT"},
 			{Name: "handler-before-gate", File: "internal/k8s/controllers/service_controller.go",
 				Old: "\tif !r.initialLoadPerformed {\n", New: "\tif !r.initialLoadPerformed && r.LoadBalancerClass != \"\" {\n", Expect: "GATE"},
 			{Name: "gate-set-on-retry-path", File: "internal/k8s/controllers/service_controller_reload.go",
@@ -61,6 +71,60 @@ func runC06(p *chk.Prog, r *chk.Report) {
 	// a request refused after its addresses were assigned gives them back (REQUEST-IPS, shared with C02): otherwise the
 	// allocator's memory holds an address that no status records, and a restarted controller disagrees with the running one
 	c02Requests(p, r)
+	// no exit of convergeBalancer before the recorded addresses are re-adopted or dropped (READOPT-EXIT, shared with C03, C01)
+	readoptBeforeExitRule(p, r)
+	c06EveryEvent(p, r)
+	c06WriteErr(p, r)
+}
+
+// c06WriteErr: the failed-write leg of the property rests on the failure being reported: the controller's UpdateStatus
+// (k8s.Client) answers nil only when the API accepted the write. A swallowed conflict leaves the allocator holding an
+// address that no status records, with nothing re-queued.
+func c06WriteErr(p *chk.Prog, r *chk.Report) {
+	x := r.Rule("WRITE-ERR", "B path (error discipline)", "(*k8s.Client).UpdateStatus returns the error of the UpdateStatus call on the API client: nil only behind that error being nil (no class of API errors - conflict, not found - is turned into success); reprocessAll lists the Services without any list option (no limit, selector or namespace), so the first full pass sees every recorded address", 2)
+	f := need(x, p, "internal/k8s", "Client", "UpdateStatus")
+	if f != nil {
+		g := f.Graph()
+		const call = "X.UpdateStatus(_, S, _)"
+		svc := chk.H("S", isParamIdx(f, 0))
+		okAll, n := len(g.FindPat(call, svc)) == 1, 0
+		for _, rt := range g.Returns() {
+			res := retResults(rt)
+			if len(res) != 1 {
+				continue
+			}
+			n++
+			switch {
+			case f.IsNilLit(res[0]):
+				if !g.Dominated(rt, g.GErrNil(true, call, svc)) {
+					okAll = false
+				}
+			case definedByIdx(g, f, call, 1, svc)(res[0]):
+			default:
+				if !f.KnownNonNil(res[0]) && !g.Dominated(rt, g.GErrNil(false, call, svc)) {
+					okAll = false
+				}
+			}
+		}
+		x.Check("UpdateStatus:nil-only-when-the-api-accepted", f.Pos(), okAll && n > 0, "", "a status write that the API refused can be reported as success (the controller then neither retries nor releases the address it chose)")
+	}
+	ra := need(x, p, ctrlPkg, "ServiceReconciler", "reprocessAll")
+	if ra != nil {
+		g := ra.Graph()
+		lists := g.FindPat("X.List(ETC)")
+		okL, nL := true, 0
+		for _, l := range lists {
+			c := l.Node.(*ast.CallExpr)
+			if len(c.Args) < 2 || !strings.HasSuffix(types.TypeString(ra.Info().TypeOf(c.Args[1]), nil), "k8s.io/api/core/v1.ServiceList") {
+				continue // another listing (the endpoint slices of one Service)
+			}
+			nL++
+			if len(c.Args) != 2 || c.Ellipsis.IsValid() || ra.LoopOf(c) != nil {
+				okL = false
+			}
+		}
+		x.Check("reprocessAll:lists-every-service", ra.Pos(), okL && nL == 1, "", "the full pass lists the Services with list options or piecewise (limit / continue, selectors): the cache-backed reader truncates or restricts such a listing, and the gate opens over addresses that were never re-adopted")
+	}
 }
 
 func c06Gate(p *chk.Prog, r *chk.Report) {
@@ -403,6 +467,27 @@ func syncRetryFlag(f *chk.Fn, g *chk.Graph) types.Object {
 		}
 	}
 	return flag
+}
+
+// c06EveryEvent: a per-service event is never dropped silently. The retry of a failed status write is such an event
+// for an unchanged object: a short-cut that recognises "nothing new" from the object alone (same resourceVersion, same
+// generation, equal to a remembered copy) loses it, the chosen address stays in memory only and the next instance
+// decides differently.
+func c06EveryEvent(p *chk.Prog, r *chk.Report) {
+	x := r.Rule("EVERY-EVENT", "B path", "in (*ServiceReconciler).reconcileService the only returns with a nil error before the handler call are the initial-load gate (!r.initialLoadPerformed) and the load-balancer-class filter; every other event reaches the handler or is requeued with its error", 1)
+	f := need(x, p, ctrlPkg, "ServiceReconciler", "reconcileService")
+	if f == nil {
+		return
+	}
+	g := f.Graph()
+	isHandler := f.ContainsPat("RECV.Handler(ETC)", chk.H("RECV", isRecv(f)))
+	allowed := chk.GAnyOf(g.GPat(false, "RECV.initialLoadPerformed", chk.H("RECV", isRecv(f))),
+		g.GPat(true, "filterByLoadBalancerClass(S, RECV.LoadBalancerClass)", chk.H("RECV", isRecv(f))))
+	w := (&chk.Walk{G: g, Stop: isHandler, Hit: func(n ast.Node) bool {
+		rs, ok := n.(*ast.ReturnStmt)
+		return ok && len(rs.Results) == 2 && f.IsNilLit(rs.Results[1])
+	}, Cut: func(b *cfgBlock, k int) bool { return g.EdgeImplies(b, k, allowed) }}).Run()
+	x.Check("reconcileService:no-silent-drop", posOf(w, f), !w.Found && len(g.Find(isHandler)) >= 1, "", "an event can be acknowledged without reaching the handler for a reason other than the initial-load gate and the class filter (a retry of a failed status write carries an unchanged object): "+describe(f, w))
 }
 
 func c06Handler(p *chk.Prog, r *chk.Report) {
